@@ -153,7 +153,7 @@ class Hist:
                 if op == 'insert_asc':
                     pre = z3.And(pre, z3.UGT(x, t))
                     if ref.e:
-                        pre = z3.And(pre, z3.UGT(k, ref.e[-1]['k']), z3.UGT(ref.e[-1]['x'], t))
+                        pre = z3.And([pre, z3.UGT(k, ref.e[-1]['k'])] + [z3.UGT(e['x'], t) for e in ref.e])
                 if not s.assume(eng, st, pre):
                     return None
                 A['cur'] = {'t': t, 'k': k, 'x': x, 'v': v}
